@@ -168,6 +168,14 @@ func (vt *Model) ich(ps int) {
 			},
 		}
 	}
+	// The inserted cells are erased cells: they take the current background,
+	// and the last column is one of them when the insertion reaches it
+	for i := 0; i < ps; i += 1 {
+		if int(col)+i > (vt.width() - 1) {
+			break
+		}
+		line[col+column(i)].erase(vt.cursor.Style.Background)
+	}
 }
 
 // Cursur Up (CUU) CSI Ps A
